@@ -70,8 +70,17 @@ const (
 )
 
 type c18DnsEntry struct {
-	exp       time.Time
-	hasAnswer bool // false: NOERROR/NODATA (no record of that type)
+	exp       time.Time // original deadline of the answer (what knowledge follows)
+	hasAnswer bool      // false: NOERROR/NODATA (no record of that type)
+	// sureUntil: until then the knowledge certainly exists. It is earlier than exp
+	// when fixed_domain_ttl lets the cache entry be evicted before its original
+	// TTL (eviction forgets the knowledge; when the janitor gets there is not
+	// modelled), and for an entry whose cache key was overwritten by a later
+	// answer (its contribution survives only until the next knowledge re-sync).
+	// Between sureUntil and exp either behaviour is accepted.
+	sureUntil time.Time
+	scope     string
+	replaced  bool
 }
 
 type c18World struct {
@@ -91,6 +100,10 @@ type c18World struct {
 	probeTruth map[string]string // see c18ProbeOutcomes
 	probeCalls []string
 	focus      []string // recently touched spellings (generator aid only)
+	fixed      map[string]int // fixed_domain_ttl
+	optimistic bool
+	opt        *DnsControllerOption
+	reloads    int
 }
 
 func (w *c18World) touch(s string) {
@@ -114,6 +127,13 @@ func c18Log() *logrus.Logger {
 
 // c18NewWorld must be called inside a bubble. No bootstrap resolvers unless given.
 func c18NewWorld(mode consts.DialMode, resolvers []netip.AddrPort, optimistic bool) *c18World {
+	return c18NewWorldFixed(mode, resolvers, optimistic, nil)
+}
+
+const c18OptimisticTtl = 3600
+
+// c18NewWorldFixed additionally configures dns.fixed_domain_ttl.
+func c18NewWorldFixed(mode consts.DialMode, resolvers []netip.AddrPort, optimistic bool, fixed map[string]int) *c18World {
 	log := c18Log()
 	ctx, cancel := context.WithCancel(context.Background())
 	opt := &DnsControllerOption{
@@ -124,9 +144,10 @@ func c18NewWorld(mode consts.DialMode, resolvers []netip.AddrPort, optimistic bo
 			return &DnsCache{NS: ns, Extra: extra, Answer: answers, Deadline: deadline, OriginalDeadline: originalDeadline}, nil
 		},
 	}
+	opt.FixedDomainTtl = fixed
 	if optimistic {
 		opt.OptimisticCache = true
-		opt.OptimisticCacheTtl = 3600
+		opt.OptimisticCacheTtl = c18OptimisticTtl
 	}
 	dc, err := NewDnsController(nil, opt)
 	if err != nil {
@@ -144,7 +165,7 @@ func c18NewWorld(mode consts.DialMode, resolvers []netip.AddrPort, optimistic bo
 		controlPlaneDNSRuntime: controlPlaneDNSRuntime{dnsController: dc},
 	}
 	return &c18World{
-		cp: cp, dc: dc, ctx: ctx,
+		cp: cp, dc: dc, ctx: ctx, fixed: fixed, optimistic: optimistic, opt: opt,
 		dns:        map[string]map[uint16][]c18DnsEntry{},
 		verified:   map[string]bool{},
 		maybeVerified: map[string]bool{},
@@ -214,7 +235,7 @@ func (w *c18World) insert(in c18Insert) error {
 		if err := w.dc.UpdateDnsCacheTtl(in.Name, in.Qtype, []dnsmessage.RR{rr}, nil, nil, int(in.Ttl)); err != nil {
 			return err
 		}
-		w.remember(in.Name, in.Qtype, now.Add(time.Duration(in.Ttl)*time.Second), true)
+		w.remember(in, now, now.Add(time.Duration(in.Ttl)*time.Second), true)
 		return nil
 	}
 	msg := new(dnsmessage.Msg)
@@ -246,21 +267,94 @@ func (w *c18World) insert(in c18Insert) error {
 		if ttl > 31536000 {
 			ttl = 31536000
 		}
-		w.remember(in.Name, in.Qtype, now.Add(time.Duration(ttl)*time.Second), true)
+		w.remember(in, now, now.Add(time.Duration(ttl)*time.Second), true)
 	case "nodata":
-		w.remember(in.Name, in.Qtype, now.Add(minFirefoxCacheTtl*time.Second), false)
+		w.remember(in, now, now.Add(minFirefoxCacheTtl*time.Second), false)
 	}
 	return nil
 }
 
-func (w *c18World) remember(name string, qtype uint16, exp time.Time, hasAnswer bool) {
+func (w *c18World) remember(in c18Insert, now, exp time.Time, hasAnswer bool) {
+	name, qtype := in.Name, in.Qtype
 	w.touch(name)
 	m := w.dns[name]
 	if m == nil {
 		m = map[uint16][]c18DnsEntry{}
 		w.dns[name] = m
 	}
-	m[qtype] = append(m[qtype], c18DnsEntry{exp: exp, hasAnswer: hasAnswer})
+	scope := in.Scope
+	if in.ViaHost {
+		scope = ""
+	}
+	// a later answer under the same cache key overwrites the entry
+	for i := range m[qtype] {
+		e := &m[qtype][i]
+		if e.scope == scope && !e.replaced {
+			e.replaced = true
+			if now.Before(e.sureUntil) {
+				e.sureUntil = now
+			}
+		}
+	}
+	sure := exp
+	if f, ok := w.fixed[name]; ok {
+		// the cache entry lives until now+fixed (plus the stale window when the
+		// optimistic cache is on); after that the janitor may evict it and the
+		// knowledge goes with it. (Whether a differently-cased question name gets
+		// the fixed TTL at all is F-C08-1's business: the earlier bound is used.)
+		evictable := now.Add(time.Duration(f) * time.Second)
+		if w.optimistic {
+			evictable = evictable.Add(c18OptimisticTtl * time.Second)
+		}
+		if evictable.Before(sure) {
+			sure = evictable
+		}
+	}
+	m[qtype] = append(m[qtype], c18DnsEntry{exp: exp, hasAnswer: hasAnswer, sureUntil: sure, scope: scope})
+}
+
+// reload performs what a configuration reload does to the DNS knowledge: the old
+// generation's cache is cloned (CloneCacheForReload) and restored
+// (RestoreReloadCache) into the controller of the new generation, which either
+// shares the old store (ReuseForReload, the normal path) or is brand new (reuse
+// failed). A reload must not change when a name stops being known.
+func (w *c18World) reload(fresh bool) error {
+	clones := w.dc.CloneCacheForReload()
+	now := time.Now()
+	if fresh {
+		ndc, err := NewDnsController(nil, w.opt)
+		if err != nil {
+			return err
+		}
+		ndc.RestoreReloadCache(clones, nil, now)
+		old := w.dc
+		w.dc = ndc
+		w.cp.dnsController = ndc
+		_ = old.Close()
+		// overwritten entries were not in the cache any more: their contribution
+		// to the knowledge does not survive into a fresh store.
+		for _, m := range w.dns {
+			for qt, es := range m {
+				kept := es[:0]
+				for _, e := range es {
+					if !e.replaced {
+						kept = append(kept, e)
+					}
+				}
+				m[qt] = kept
+			}
+		}
+	} else {
+		ndc, err := w.dc.ReuseForReload(w.opt, nil)
+		if err != nil {
+			return err
+		}
+		ndc.RestoreReloadCache(clones, nil, now)
+		w.dc = ndc
+		w.cp.dnsController = ndc
+	}
+	w.reloads++
+	return nil
 }
 
 // verify / negCache mirror exactly what probeAndUpdateRealDomain writes.
@@ -298,6 +392,9 @@ func c18FreshAt(exp, now time.Time) c18Fresh {
 func (w *c18World) dnsState(name string, qtype uint16, now time.Time) (withAnswer, any c18Fresh) {
 	for _, e := range w.dns[name][qtype] {
 		f := c18FreshAt(e.exp, now)
+		if f == c18Live && !now.Before(e.sureUntil) {
+			f = c18Boundary // may already have been forgotten: either
+		}
 		if f > any {
 			any = f
 		}
